@@ -119,6 +119,19 @@ chk("C14",
     "TLA+ spec + TLC (action properties) ; spec->impl replay of TLC-generated edit histories through the real binary",
     "DESIGN.md §5 C14")
 
+chk("C17",
+    "spec/config/Config.tla: one action per configuration source applied in the order the tool reads them (file, command line, "
+    "attribute) and Resolve for the target language; TLC checks Precedence and OnlyThatLanguage against the declarative "
+    "documented rule for all 64 assignments (absent / shared / target-scoped / other-language-scoped per source) and refutes the "
+    "negative model that reads the command line before the file. Each assignment is replayed through the real binary (config.toml "
+    "in kebab and snake case, --config, #[diplomat::config]) for lib_name (kotlin, nanobind), unsafe_references_in_callbacks (c, "
+    "cpp, kotlin, nanobind), kotlin.domain, js.abi and demo_gen.module_name; the effective value is read from the generated "
+    "output (Native.load name, package path, <lib>_ext.cpp, acceptance of callback references, legacy-vs-spec JS, import path).",
+    "Distinct values per source make the winner observable; two-valued settings are run once per candidate winner. A required key "
+    "left unset ends the run with 'Missing required field' (usage error).",
+    "TLA+ spec + TLC; spec->impl replay of every assignment through the real binary",
+    "DESIGN.md §5 C17")
+
 NOT_YET = {}
 
 
